@@ -168,6 +168,43 @@ def _run_loop_with_spec(it, node, frame, spec, kind, iterable=None):
 
     check_invariants('entry')
     # ---- havoc
+    # Frame soundness: every local variable (and every attribute of `self`) that the loop body
+    # assigns syntactically and that the specification does not havoc carries, at the head of an
+    # arbitrary iteration, a value from an earlier iteration.  It is replaced by a poisoned value:
+    # passing it around is fine, *using* it leaves the supported subset (exit 3), so an
+    # incomplete havoc list can never turn into a wrong verdict.
+    mentioned = ' '.join(str(s) for s in getattr(spec, 'havoc_stmts', ())) + ' ' + \
+        ' '.join(e for _, e in invariants) + ' ' + ' '.join(str(h) for h in spec.havoc.values())
+    targets = {n.id for n in ast.walk(node.target) if isinstance(n, ast.Name)} if kind == 'for' else set()
+    assigned, self_attrs = set(), set()
+
+    def _scan(n):
+        if isinstance(n, (ast.FunctionDef, ast.Lambda, ast.ClassDef)):
+            return
+        if isinstance(n, ast.Name) and isinstance(n.ctx, ast.Store):
+            assigned.add(n.id)
+        if isinstance(n, ast.Attribute) and isinstance(n.ctx, ast.Store) and isinstance(n.value, ast.Name) \
+                and n.value.id == 'self':
+            self_attrs.add(n.attr)
+        for c in ast.iter_child_nodes(n):
+            _scan(c)
+    for s_ in node.body:
+        _scan(s_)
+    from .values import Opaque
+    for name in sorted(assigned - targets - set(spec.havoc) - {g[0] for g in spec_ghost}):
+        if name.startswith('_') or name in mentioned.split() or ('(%s' % name) in mentioned or (name + ',') in mentioned:
+            continue
+        cur, bound = frame.lookup(name)
+        if bound and name in frame.locals:
+            frame.locals[name] = Opaque('%s: value from an earlier iteration (not in the havoc list)' % name)
+    me_, has_self = frame.lookup('self')
+    if has_self and isinstance(me_, Obj):
+        for attr in sorted(self_attrs):
+            if ('self.' + attr) in mentioned or ('"%s"' % attr) in mentioned or 'havoc(self)' in mentioned or \
+                    '_havoc(self)' in mentioned or '_inv(self)' in mentioned or '_invariant(self)' in mentioned:
+                continue
+            if attr in me_.fields:
+                me_.fields[attr] = Opaque('self.%s: value from an earlier iteration (not in the havoc list)' % attr)
     recomputes = []
     for name, how in spec.havoc.items():
         r = havoc_var(it, frame, name, how)
